@@ -205,7 +205,8 @@ _hist = {}
 
 
 def _replay_history_dependence():
-    """real build, child processes: the same script/seed run (a) first in a fresh process, (b) after another simulation: bit-identical?"""
+    """real build, child processes: the same script/seed run (a) first in a fresh process, (b) after other simulations, (c) each run preceded
+    by a set-up of the same space type (same or another engine kind) that was abandoned without finalize: bit-identical?"""
     if "r" in _hist:
         return _hist["r"]
     import os
@@ -217,13 +218,21 @@ import sys
 sys.path.insert(0, %r); sys.path.insert(0, %r)
 from strengths import *
 from vt.glue import real_engine
-def run(opt, nsp, ncell, seed, base, graph=False):
+ABANDON = None
+def run(opt, nsp, ncell, seed, base, graph=False, abandoned=False):
+    if ABANDON and not abandoned:
+        # history 3 / 4: a set-up of the same space type (same / another engine kind) that was started and never finalized
+        kinds = ("euler", "tauleap", "gillespie")
+        run(opt if ABANDON == "same" else kinds[(kinds.index(opt) + 1) %% 3], nsp, ncell, seed + 1, base + 40.0, graph, abandoned=True)
     net = RDNetwork(species=[Species(chr(65 + k), D=1) for k in range(nsp)], reactions=[Reaction("A -> B", kf=1, kr=1)] * (1 if nsp > 1 else 0) + [Reaction("B -> A", kf=0.5)] * (nsp - 1))
     from strengths.rdgraphspace import RDGraphSpaceNode as N_, RDGraphSpaceEdge as E_
     space = RDGraphSpace(nodes=[N_(1.0, 0) for _ in range(ncell)], edges=[E_(k, k + 1) for k in range(ncell - 1)]) if graph else RDGridSpace(w=ncell, h=1, d=1, cell_vol=1)
     s = RDSystem(net, space, state=[base + 13 * k for k in range(nsp * ncell)])
     e = real_engine(opt)
     e.setup(RDScript(s, [0, 0.01], rng_seed=seed, time_step=0.005))
+    if abandoned:
+        e.iterate()
+        return None
     while e.iterate():
         pass
     o = e.get_output(); e.finalize()
@@ -233,6 +242,8 @@ if hist == "1":
     run("tauleap", 3, 3, 5, 140.0); run("euler", 2, 2, 1, 10.0)
 if hist == "2":
     run("gillespie", 2, 5, 9, 300.0); run("euler", 3, 1, 1, 10.0); run("tauleap", 2, 3, 4, 500.0)
+if hist in ("3", "4"):
+    ABANDON = "same" if hist == "3" else "other"
 out = [run("euler", 2, 3, 78, 20.25, graph=True)]       # measured FIRST: whatever the history left behind acts on it (deterministic engine, graph space)
 for opt in ("tauleap", "gillespie", "euler"):
     out.append(run(opt, 3, 2, 77, 120.0))
@@ -243,7 +254,7 @@ print(repr(out))
     open(path, "w").write(code)
     outs = []
     crashed = False
-    for h in ("0", "1", "2"):
+    for h in ("0", "1", "2", "3", "4"):
         try:
             r = subprocess.run([sys.executable, path, h], capture_output=True, text=True, timeout=120, env=dict(os.environ, VERIF_SHARED_SCRATCH=scratch()))
             if r.returncode != 0:
